@@ -546,17 +546,32 @@ def num_bases(prog, g):
     flow = FnFlow(g)
     for n in walk(g["body"]):
         if n.get("k") == "call" and n.get("name") == "buildInt" and len(n.get("args", [])) == 3:
-            base = strip_casts(n["args"][0]).get("v")
             pref = strip_casts(n["args"][2]).get("v")
-            facts = [(expr_str(prog, g, a), t) for a, t in atomic_facts(flow, n)]
-            key = "other"
-            if any("Hex_" in s and t for s, t in facts):
-                key = "Hex_"
-            elif any("Binary_" in s and t for s, t in facts):
-                key = "Binary_"
-            elif any("'0'" in s and "==" in s and t for s, t in facts) or any("== 48" in s and t for s, t in facts):
-                key = "leading0"
-            out[key] = (base, bool(pref))
+            facts0 = [(expr_str(prog, g, a), t) for a, t in atomic_facts(flow, n)]
+            b = strip_casts(n["args"][0])
+            variants = [(b.get("v"), [])]
+            if b.get("k") == "ref" and b.get("rk") == "local":
+                # the base chosen first: `const int base = (match[0] == '0') ? 8 : 10;` - one case per arm, under the arm's condition
+                from ..paths import ref_inits
+                v = ref_inits(g).get(b.get("vid"))
+                init = strip_casts(v["init"]) if v is not None and v.get("init") is not None else {}
+                while init.get("k") == "paren" and init.get("e") is not None:
+                    init = strip_casts(init["e"])
+                if init.get("k") == "cond" and not any(y.get("k") == "assign" and strip_casts(y["lhs"]).get("vid") == b.get("vid") for y in walk(g["body"])):
+                    ctext = expr_str(prog, g, init["c"])
+                    variants = [(strip_casts(init["a"]).get("v"), [(ctext, True)]), (strip_casts(init["b"]).get("v"), [(ctext, False)])]
+                elif init.get("k") == "lit":
+                    variants = [(init.get("v"), [])]
+            for base, extra in variants:
+                facts = facts0 + extra
+                key = "other"
+                if any("Hex_" in s and t for s, t in facts):
+                    key = "Hex_"
+                elif any("Binary_" in s and t for s, t in facts):
+                    key = "Binary_"
+                elif any("'0'" in s and "==" in s and t for s, t in facts) or any("== 48" in s and t for s, t in facts):
+                    key = "leading0"
+                out[key] = (base, bool(pref))
     return out
 
 
